@@ -117,7 +117,7 @@ def _native_u2(pi, nl, sp, crlf, oi):
         m = re.match(r"line (\d+): ", p.error)
         line = int(m.group(1)) if m else None
         ep = p.error_pos
-        kind = "lexical" if lexical else tok.decode("ascii")
+        kind = "lexical" if lexical else tok.decode("ascii", "backslashreplace")
         if weak:
             kind = "other/" + (pre + tok).decode("ascii").strip()
             if line != ep[0]:
